@@ -644,3 +644,227 @@ def literals(test: ast.AST, neg: bool = False) -> list[tuple[ast.AST, bool]]:
     if isinstance(test, ast.BoolOp) and isinstance(test.op, ast.And) != neg:
         return [x for v in test.values for x in literals(v, neg)]
     return [(test, not neg)]
+
+
+# ------------------------------------------------------------------ duplicate-free by construction
+_SETLIKE = {"set", "frozenset", "Set", "AbstractSet", "MutableSet", "FrozenSet", "dict", "Dict", "Mapping", "MutableMapping",
+            "KeysView", "ItemsView", "OrderedDict", "defaultdict"}
+
+
+def ann_is_setlike(ann: ast.AST | None) -> bool:
+    """The annotation declares a set or a mapping (possibly `| None`)."""
+    if ann is None:
+        return False
+    if isinstance(ann, ast.Constant) and isinstance(ann.value, str):
+        try:
+            ann = ast.parse(ann.value, mode="eval").body
+        except SyntaxError:
+            return False
+    if isinstance(ann, ast.BinOp) and isinstance(ann.op, ast.BitOr):
+        parts = [p for p in (ann.left, ann.right) if not (isinstance(p, ast.Constant) and p.value is None)]
+        return bool(parts) and all(ann_is_setlike(p) for p in parts)
+    if isinstance(ann, ast.Subscript):
+        base = ann.value
+        if isinstance(base, (ast.Name, ast.Attribute)) and (base.id if isinstance(base, ast.Name) else base.attr) == "Optional":
+            return ann_is_setlike(ann.slice)
+        return ann_is_setlike(base)
+    if isinstance(ann, ast.Name):
+        return ann.id in _SETLIKE
+    if isinstance(ann, ast.Attribute):
+        return ann.attr in _SETLIKE
+    return False
+
+
+class DupFree:
+    """Is a collection duplicate-free *by construction*?  True / False / None (cannot tell).
+
+    Sets, dicts and their views are; so are order-only wrappers (`sorted`, `list`, `tuple`, `enumerate`,
+    `filter`) and comprehensions with an injective element (`x` or `x.component_id`) over such a collection; a
+    list is only if every element appended to it is the loop variable (or its id) of a loop over such a
+    collection, once per iteration.  Locals are followed through all their bindings, parameters to the
+    call sites in the same class (else their annotation), `self._x(...)` / module helpers into every return
+    of the callee (overriding subclasses included), public methods and attributes by their declared type."""
+
+    def __init__(self, prog: Program, public_api: dict[str, FuncInfo], receiver_is_api: Callable[[FuncInfo, ast.AST], bool]) -> None:
+        self.prog = prog
+        self.public_api = public_api            # method name -> declaration, for receivers accepted by receiver_is_api
+        self.receiver_is_api = receiver_is_api
+        self._ret: dict[str, bool | None] = {}
+        self._active: set[tuple[int, str]] = set()
+        self.followed: list[FuncInfo] = []      # helpers whose body decided a verdict
+
+    # -- helpers
+    @staticmethod
+    def _all(vs: Iterable[bool | None]) -> bool | None:
+        vs = list(vs)
+        if any(v is False for v in vs):
+            return False
+        if not vs or any(v is None for v in vs):
+            return None
+        return True
+
+    def returns(self, callee: FuncInfo, depth: int) -> bool | None:
+        if callee.qual in self._ret:
+            return self._ret[callee.qual]
+        self._ret[callee.qual] = True if ann_is_setlike(callee.node.returns) else None  # recursion: the declared type
+        rets = [n.value for s in callee.node.body for n in walk_no_nested(s) if isinstance(n, ast.Return) and n.value is not None]
+        verdict = self._all(self.of(callee, v, depth + 1) for v in rets) if rets and depth < 5 else None
+        if rets and verdict is not None:
+            if not any(f.qual == callee.qual for f in self.followed):
+                self.followed.append(callee)
+        if verdict is None and ann_is_setlike(callee.node.returns):
+            verdict = True
+        self._ret[callee.qual] = verdict
+        return verdict
+
+    def _class_of(self, fn: FuncInfo) -> Any:
+        return fn.cls if fn.cls is not None else (fn.outer.cls if fn.outer is not None else None)
+
+    def _param(self, fn: FuncInfo, name: str, depth: int) -> bool | None:
+        cls = self._class_of(fn)
+        a = fn.node.args
+        arg = next((x for x in a.posonlyargs + a.args + a.kwonlyargs if x.arg == name), None)
+        verdicts: list[bool | None] = []
+        if cls is not None and fn.outer is None and depth < 5:
+            ps = _params_of(fn.node)[1:]
+            for c in [cls] + self.prog.subclasses(cls):
+                for m in c.methods.values():
+                    for n in ast.walk(m.node):
+                        if isinstance(n, ast.Call) and isinstance(n.func, ast.Attribute) and n.func.attr == fn.name \
+                                and isinstance(n.func.value, ast.Name) and n.func.value.id in ("self", "cls"):
+                            args = call_args(n, ps)
+                            if args is not None and name in args:
+                                verdicts.append(self.of(m, args[name], depth + 1))
+        if verdicts:
+            return self._all(verdicts)
+        return True if (arg is not None and ann_is_setlike(arg.annotation)) else None
+
+    def _name(self, fn: FuncInfo, name: str, depth: int) -> bool | None:
+        key = (id(fn.node), name)
+        if key in self._active:
+            return True  # `x = x.union(...)`: inductively, x is what its other bindings make it
+        self._active.add(key)
+        try:
+            return self._name1(fn, name, depth)
+        finally:
+            self._active.discard(key)
+
+    def _name1(self, fn: FuncInfo, name: str, depth: int) -> bool | None:
+        if name in _params_of(fn.node) and not any(
+                isinstance(n, ast.Name) and n.id == name and isinstance(n.ctx, ast.Store) for n in ast.walk(fn.node)):
+            return self._param(fn, name, depth)
+        values: list[ast.AST] = []
+        verdicts: list[bool | None] = []
+        parents = None
+        for s in fn.node.body:
+            for n in walk_no_nested(s):
+                if isinstance(n, ast.Assign) and any(isinstance(t, ast.Name) and t.id == name for t in n.targets):
+                    values.append(n.value)
+                elif isinstance(n, ast.AnnAssign) and isinstance(n.target, ast.Name) and n.target.id == name and n.value is not None:
+                    values.append(n.value)
+                elif isinstance(n, ast.AugAssign) and isinstance(n.target, ast.Name) and n.target.id == name:
+                    if not isinstance(n.op, (ast.BitOr, ast.BitAnd, ast.Sub, ast.BitXor)):
+                        return False
+                elif isinstance(n, (ast.For, ast.comprehension, ast.withitem, ast.NamedExpr)) and any(
+                        isinstance(t, ast.Name) and t.id == name and isinstance(t.ctx, ast.Store)
+                        for t in ast.walk(n.target if not isinstance(n, ast.withitem) else (n.optional_vars or ast.Constant(None)))):
+                    if not isinstance(n, ast.comprehension):
+                        return None  # bound by something this analysis does not follow
+                elif isinstance(n, ast.Call) and isinstance(n.func, ast.Attribute) and isinstance(n.func.value, ast.Name) \
+                        and n.func.value.id == name and n.func.attr in ("append", "extend", "insert"):
+                    if n.func.attr != "append" or len(n.args) != 1:
+                        return False
+                    if parents is None:
+                        parents = {c: p for p in ast.walk(fn.node) for c in ast.iter_child_nodes(p)}
+                    loop = parents.get(n)
+                    while loop is not None and not isinstance(loop, (ast.For, ast.While, ast.AsyncFor)):
+                        loop = parents.get(loop)
+                    defs = single_defs(fn.node)
+                    v = txt(deref(n.args[0], defs))
+                    if not (isinstance(loop, ast.For) and isinstance(loop.target, ast.Name)
+                            and v in (loop.target.id, f"{loop.target.id}.component_id")):
+                        return False  # not the loop variable itself: a many-to-one map may repeat elements
+                    verdicts.append(self.of(fn, loop.iter, depth + 1))
+        if not values:
+            return None
+        for v in values:
+            if isinstance(v, ast.List) and not v.elts or (isinstance(v, ast.Call) and txt(v) == "list()"):
+                verdicts.append(True)  # an empty list: decided by what is appended
+            else:
+                verdicts.append(self.of(fn, v, depth + 1))
+        return self._all(verdicts)
+
+    def _attribute(self, fn: FuncInfo, e: ast.Attribute) -> bool | None:
+        cls = self._class_of(fn)
+        if cls is None or not (isinstance(e.value, ast.Attribute) and isinstance(e.value.value, ast.Name) and e.value.value.id == "self"):
+            return None
+        owners = self.prog.attr_classes(cls).get(e.value.attr, set())
+        verdicts: list[bool | None] = []
+        for c in self.prog.all_classes():
+            if c.name in owners:
+                for s in c.node.body:
+                    if isinstance(s, ast.AnnAssign) and isinstance(s.target, ast.Name) and s.target.id == e.attr:
+                        verdicts.append(True if ann_is_setlike(s.annotation) else None)
+        return self._all(verdicts)
+
+    # -- the judgement
+    def of(self, fn: FuncInfo, e: ast.AST, depth: int = 0) -> bool | None:
+        if depth > 8:
+            return None
+        if isinstance(e, (ast.Set, ast.SetComp, ast.Dict, ast.DictComp)):
+            return True
+        if isinstance(e, (ast.List, ast.Tuple)):
+            return True if len(e.elts) <= 1 else False
+        if isinstance(e, (ast.ListComp, ast.GeneratorExp)):
+            if len(e.generators) != 1 or not isinstance(e.generators[0].target, ast.Name):
+                return False
+            t = e.generators[0].target.id
+            if txt(e.elt) not in (t, f"{t}.component_id"):
+                return False
+            return self.of(fn, e.generators[0].iter, depth + 1)
+        if isinstance(e, ast.IfExp):
+            return self._all([self.of(fn, e.body, depth + 1), self.of(fn, e.orelse, depth + 1)])
+        if isinstance(e, ast.BinOp):
+            if isinstance(e.op, ast.BitOr):
+                return self._all([self.of(fn, e.left, depth + 1), self.of(fn, e.right, depth + 1)])
+            if isinstance(e.op, (ast.BitAnd, ast.Sub, ast.BitXor)):
+                return self.of(fn, e.left, depth + 1)
+            return False if isinstance(e.op, (ast.Add, ast.Mult)) else None
+        if isinstance(e, ast.Name):
+            return self._name(fn, e.id, depth)
+        if isinstance(e, ast.Attribute):
+            return self._attribute(fn, e)
+        if isinstance(e, ast.Call):
+            f = e.func
+            if isinstance(f, ast.Name):
+                if f.id in ("set", "frozenset", "dict"):
+                    return True
+                if f.id in ("sorted", "list", "tuple", "reversed", "enumerate", "iter") and e.args:
+                    return self.of(fn, e.args[0], depth + 1)
+                if f.id == "filter" and len(e.args) == 2:
+                    return self.of(fn, e.args[1], depth + 1)
+                if f.id == "map":
+                    return False
+                if f.id in fn.module.functions:
+                    return self.returns(fn.module.functions[f.id], depth)
+                return None
+            if isinstance(f, ast.Attribute):
+                if f.attr in ("keys", "items") and not e.args and not e.keywords:
+                    return True  # views of a mapping: its keys are unique whatever it was built from
+                if f.attr == "values":
+                    return False
+                if f.attr in ("union", "intersection", "difference", "symmetric_difference", "copy"):
+                    return self.of(fn, f.value, depth + 1)
+                cls = self._class_of(fn)
+                if isinstance(f.value, ast.Name) and f.value.id in ("self", "cls") and cls is not None:
+                    m = self.prog.resolve_method(cls, f.attr)
+                    impls = ([m] if m is not None else []) + [s.methods[f.attr] for s in self.prog.subclasses(cls) if f.attr in s.methods]
+                    if not impls:
+                        return None
+                    if not f.attr.startswith("_"):
+                        return self._all(True if ann_is_setlike(i.node.returns) else None for i in impls)
+                    return self._all(self.returns(i, depth) for i in impls)
+                if f.attr in self.public_api and self.receiver_is_api(fn, f.value):
+                    return True if ann_is_setlike(self.public_api[f.attr].node.returns) else None
+            return None
+        return None
